@@ -65,6 +65,8 @@ ParallelInit(int_t n, pxgstrf_relax_t *pxgstrf_relax,
 
     pxgstrf_shared->lu_locks =
 	(mutex_t *) SUPERLU_MALLOC( NO_GLU_LOCKS * sizeof(mutex_t) );
+    if ( !pxgstrf_shared->lu_locks )
+	SUPERLU_ABORT("SUPERLU_MALLOC fails for lu_locks[].");
 
 #endif    
     
